@@ -158,8 +158,39 @@ def run(name, ids, tier='quick'):
     return 0
 
 
+def suite(wt):
+    """run the repository's suite in `wt` and compare with the stable set"""
+    base = json.load(open('/root/.vp/BASELINE.json'))
+    stable = set(base['stable_pass'])
+    jx = '/tmp/suite_%d.junit.xml' % os.getpid()
+    env = {'PYTHONPATH': wt}
+    t0 = time.time()
+    sh('%s -m pytest -q -p no:cacheprovider --timeout=120 --continue-on-collection-errors --junitxml=%s' % (PY, jx), cwd=wt, env=env, timeout=2400)
+    res = junit_results(jx)
+    os.remove(jx)
+    missing = sorted(t for t in stable if res.get(t) != 'pass')
+    still = []
+    for t in missing:
+        mod, fn = t.split('::', 1)
+        path = mod.replace('.', '/') + '.py'
+        ok = False
+        for _ in range(3):
+            rc, out = sh('%s -m pytest -q -p no:cacheprovider --timeout=120 "%s::%s"' % (PY, path, fn), cwd=wt, env=env, timeout=600)
+            if rc == 0:
+                ok = True
+                break
+        if not ok:
+            still.append(t)
+    r = {'stable_total': len(stable), 'passed_in_full_run': len(stable) - len(missing), 'rerun_in_isolation': len(missing),
+         'still_failing': still, 'seconds': round(time.time() - t0)}
+    print(json.dumps(r, indent=1))
+    return 0 if not still else 1
+
+
 if __name__ == '__main__':
     cmd = sys.argv[1]
+    if cmd == 'suite':
+        sys.exit(suite(sys.argv[2]))
     if cmd == 'confirm':
         sys.exit(confirm(sys.argv[2], sys.argv[3], '--suite' in sys.argv))
     if cmd == 'run':
